@@ -718,14 +718,14 @@ pub struct Attribute { pub k: u8 }
 #[verifier::external_body]
 pub fn attr(key: impl Into<String>, value: impl Into<String>) -> Attribute { unimplemented!() }
 
-// Response: attributes and events are not modelled (no property speaks about them)
-pub struct Response<T = Empty> { pub messages: Vec<SubMsg<T>>, pub data: Option<Binary> }
+// Response: attributes and events are carried but their contents are not modelled (no property speaks about them)
+pub struct Response<T = Empty> { pub messages: Vec<SubMsg<T>>, pub attributes: Vec<Attribute>, pub data: Option<Binary> }
 impl<T> Response<T> {
-    pub fn new() -> (r: Self) ensures r.messages@ == Seq::<SubMsg<T>>::empty(), r.data is None { Response { messages: Vec::new(), data: None } }
+    pub fn new() -> (r: Self) ensures r.messages@ == Seq::<SubMsg<T>>::empty(), r.data is None { Response { messages: Vec::new(), attributes: Vec::new(), data: None } }
     #[verifier::external_body]
-    pub fn add_attribute(self, key: impl Into<String>, value: impl Into<String>) -> (r: Self) ensures r == self { unimplemented!() }
+    pub fn add_attribute(self, key: impl Into<String>, value: impl Into<String>) -> (r: Self) ensures r.messages == self.messages, r.data == self.data { unimplemented!() }
     #[verifier::external_body]
-    pub fn add_attributes(self, attrs: Vec<Attribute>) -> (r: Self) ensures r == self { unimplemented!() }
+    pub fn add_attributes(self, attrs: Vec<Attribute>) -> (r: Self) ensures r.messages == self.messages, r.data == self.data { unimplemented!() }
     #[verifier::external_body]
     pub fn add_message<M: Into<CosmosMsg<T>>>(self, msg: M) -> (r: Self)
         ensures <M as IntoSpec<CosmosMsg<T>>>::obeys_into_spec() ==> r.messages@ == self.messages@.push(SubMsg::<T>::new_spec(<M as IntoSpec<CosmosMsg<T>>>::into_spec(msg))),
@@ -745,7 +745,7 @@ impl<T> Response<T> {
     { unimplemented!() }
 }
 impl<T> core::default::Default for Response<T> {
-    fn default() -> (r: Self) ensures r.messages@ == Seq::<SubMsg<T>>::empty(), r.data is None { Response { messages: Vec::new(), data: None } }
+    fn default() -> (r: Self) ensures r.messages@ == Seq::<SubMsg<T>>::empty(), r.data is None { Response { messages: Vec::new(), attributes: Vec::new(), data: None } }
 }
 
 // serialization of messages (A7): total, injective, otherwise uninterpreted
